@@ -446,7 +446,11 @@ macro_rules! core_ops_impl {
                             return finish(r, declared, vec![bytes]);
                         }
                         kp.prepare(m, &key, big.borrow());
-                        let declared = m.circuit_bootstrapping_execute_tmp_bytes(block as usize, 1, &ggsw_infos, &cbt_infos);
+                        // the entry assert evaluates the query on the prepared key's own infos (k rounded up to whole
+                        // limbs), so that is what a caller has to budget
+                        let declared = m
+                            .circuit_bootstrapping_execute_tmp_bytes(block as usize, 1, &ggsw_infos, &cbt_infos)
+                            .max(m.circuit_bootstrapping_execute_tmp_bytes(block as usize, 1, &res, &kp));
                         let r = if op == "circuit_bootstrapping_execute_to_constant" {
                             windowed(declared, w, &mut |s| kp.execute_to_constant(m, &mut res, &lwe, 1, 1, s))
                         } else {
